@@ -371,6 +371,9 @@ type End struct {
 	// DetailsCodeSet: (encoding a gRPC status) the google.rpc.Status in grpc-status-details-bin
 	// carries DetailsCode instead of Code.
 	DetailsCodeSet bool
+	// OmitGrpcMessage: with details, the (optional) Grpc-Message header is left out; the message is in the
+	// google.rpc.Status of Grpc-Status-Details-Bin only
+	OmitGrpcMessage bool
 	DetailsCode    int32
 	// PadBase64: error details (Connect "value", grpc-status-details-bin) are written as padded base64.
 	PadBase64 bool
@@ -1040,7 +1043,7 @@ func grpcStatusHeaders(e *End, into http.Header) {
 	} else {
 		into.Set("Grpc-Status", strconv.Itoa(e.Code))
 	}
-	if e.Message != "" {
+	if e.Message != "" && !(e.OmitGrpcMessage && len(e.Details) > 0) {
 		into.Set("Grpc-Message", GRPCPercentEncode(e.Message))
 	}
 	if len(e.Details) > 0 {
